@@ -33,7 +33,9 @@ def fromHexChars : List Char → Option Bytes
 def decHex (s : String) : Option Bytes :=
   if s == "-" then some [] else fromHexChars s.toList
 
-def strBytes (s : String) : Bytes := s.toUTF8.toList
+/-- bytes of an ASCII literal (every use in the models is an ASCII literal; for ASCII this is `s.toUTF8.toList`,
+    but unlike that it reduces in the kernel, so facts about literals can be closed by `decide`) -/
+def strBytes (s : String) : Bytes := s.toList.map fun c => UInt8.ofNat c.toNat
 
 /-- for diagnostics only -/
 def bytesToString (bs : Bytes) : String :=
